@@ -76,3 +76,59 @@ Print Assumptions C08_sane.
 Print Assumptions C08_exact.
 Print Assumptions C08_ulp_partial.
 Print Assumptions C08_beyond_threshold_refuted.
+
+(* ---- the property's constant 5 PROVED for every band (Proofs/FloatUlp5.v, FloatUlp5b.v): in the low band the second divisor 10^j has j <= 22 and is exact, and
+        1e308 is one specific double whose relative error against 10^308 is a computed constant (< u/10); proved constants: 3.5 ulp (exponent >= -308),
+        3.6 ulp (below), 2 units of 2^-1074 for subnormal results ---- *)
+From Coq Require Import ZArith NArith Reals Lia Lra List Bool Psatz.
+From Flocq Require Import Core BinarySingleNaN Relative.
+From SJ Require Import Base.Bytes Base.FloatB Gen.Tables Model.Read Model.Num.
+From SJ Require Import Proofs.FloatDefault Proofs.FloatUlp.
+From SJ Require Import Proofs.FloatUlp5.
+Theorem C08_ulp_5_normal : forall sig e f, (0 < sig)%N -> (sig <= u64_max)%N ->
+  f64_loop 4 (b64_of_Z (Z.of_N sig)) e = Ok (Some f) ->
+  (bpow radix2 (-1022) <= exact_val sig e)%R ->
+  let v := exact_val sig e in
+  let c := if (-308 <=? e) then (3 + / 1099511627776)%R else (3 + / 10 + / 1099511627776)%R in
+  (Rabs (B2R f - v) <= c * u * v)%R /\
+  (Rabs (B2R f - RNE64 v) <= (c + / 2) * ulp radix2 fexp64 v)%R /\
+  (Rabs (B2R f - RNE64 v) <= 5 * ulp radix2 fexp64 v)%R.
+Proof. exact FloatUlp5.C08_ulp_5_normal. Qed.
+Print Assumptions C08_ulp_5_normal.
+
+Theorem C08_ulp_low : forall sig e f, (0 < sig)%N -> (sig <= u64_max)%N -> e < -308 ->
+  f64_loop 4 (b64_of_Z (Z.of_N sig)) e = Ok (Some f) ->
+  (bpow radix2 (-1022) <= exact_val sig e)%R ->
+  let v := exact_val sig e in
+  let c := (3 + / 10 + / 1099511627776)%R in
+  (Rabs (B2R f - v) <= c * u * v)%R /\
+  (Rabs (B2R f - RNE64 v) <= (c + / 2) * ulp radix2 fexp64 v)%R.
+Proof. exact FloatUlp5.C08_ulp_low. Qed.
+Print Assumptions C08_ulp_low.
+
+From Coq Require Import ZArith NArith Reals Lia Lra List Bool Psatz.
+From Flocq Require Import Core BinarySingleNaN Relative.
+From SJ Require Import Base.Bytes Base.FloatB Gen.Tables Model.Read Model.Num.
+From SJ Require Import Proofs.FloatDefault Proofs.FloatUlp Proofs.FloatUlp5.
+From SJ Require Import Proofs.FloatUlp5b.
+Theorem C08_within_5ulp : forall sig e f, (0 < sig)%N -> (sig <= u64_max)%N ->
+  f64_loop 4 (b64_of_Z (Z.of_N sig)) e = Ok (Some f) ->
+  (Rabs (B2R f - RNE64 (exact_val sig e)) <= 5 * ulp radix2 fexp64 (exact_val sig e))%R.
+Proof. exact FloatUlp5b.C08_within_5ulp. Qed.
+Print Assumptions C08_within_5ulp.
+
+Theorem C08_subnormal_2 : forall sig e f, (0 < sig)%N -> (sig <= u64_max)%N ->
+  f64_loop 4 (b64_of_Z (Z.of_N sig)) e = Ok (Some f) ->
+  (exact_val sig e < bpow radix2 (-1022))%R ->
+  (Rabs (B2R f - RNE64 (exact_val sig e)) <= 2 * bpow radix2 (-1074))%R.
+Proof. exact FloatUlp5b.C08_subnormal_2. Qed.
+Print Assumptions C08_subnormal_2.
+
+Theorem C08_ulp_all : forall sig e f, (0 < sig)%N -> (sig <= u64_max)%N ->
+  f64_loop 4 (b64_of_Z (Z.of_N sig)) e = Ok (Some f) ->
+  let v := exact_val sig e in
+  let c := if (-308 <=? e) then (3 + / 2 + / 1099511627776)%R else (3 + / 2 + / 10 + / 1099511627776)%R in
+  (Rabs (B2R f - RNE64 v) <= c * ulp radix2 fexp64 v)%R.
+Proof. exact FloatUlp5b.C08_ulp_all. Qed.
+Print Assumptions C08_ulp_all.
+
